@@ -312,6 +312,7 @@ package ast
 
 //@ struct AssignmentExpr
 //@ props C01 C05
+//@ invariant len(self.LHS) >= 1 && len(self.RHS) >= 1
 //@ invariant forall i :: 0 <= i && i < len(self.LHS) ==> self.LHS[i] != nil
 //@ invariant forall i :: 0 <= i && i < len(self.RHS) ==> self.RHS[i] != nil
 
@@ -320,7 +321,7 @@ package ast
 //@ spec wfValA(v any, t DType) bool = (t == String ==> typeis(v, string)) && (t == List ==> typeis(v, []any))
 //@ | && (t == Map ==> typeis(v, map[string]any) && v.(map[string]any) != nil) && (t == Int ==> typeis(v, int64))
 //@ | && (t == Float ==> typeis(v, float64)) && (t == Bool ==> typeis(v, bool))
-//@ | && (t == Nil ==> v == nil)
+//@ | && (t == Nil ==> v == nil) && t <= Map
 
 //@ func DectDataType
 //@ props C01
